@@ -74,7 +74,7 @@ def rand_blocks(rnd, n=None, fault=True):
         if k == 'ia':
             opts += ['init_async']
         if k in ('oa', 'repeat', 'vp', 'ia', 'slowstop'):
-            opts += ['stop_async']
+            opts += ['stop_async', 'start_base']
         blocks[b]['fault'] = rnd.choice(opts)
     return blocks
 
